@@ -242,13 +242,16 @@ def test_K4_registration_survives_a_concurrent_forced_flush(tmp_path):
 
     code = fb.FileBufferedCollection._flush_buffer.__func__.__code__
     src_lines = open(fb.__file__).read().split("\n")
+    flush_line = max(i + 1 for i, l in enumerate(src_lines) if "collection._flush(force=force)" in l)
 
     def tracer(frame, event, arg):
         if frame.f_code is not code:
             return tracer if event == "call" else None
 
         def local(frame, event, arg):
-            if event == "line" and src_lines[frame.f_lineno - 1].strip().startswith("if not issues"):
+            text = src_lines[frame.f_lineno - 1].strip()
+            after_loop = frame.f_lineno > flush_line
+            if event == "line" and (text.startswith("if not issues") or (after_loop and text.startswith("with cls._BUFFER_LOCK"))):
                 if not parked.is_set():
                     parked.set()
                     go.wait(5)
@@ -390,3 +393,41 @@ def test_K8_update_replaces_equal_values_of_different_json_type(fn):
     d["n"] = {"b": 1}
     d.update({"a": True, "n": {"b": 1.0}})
     assert open(fn).read() == '{"a": true, "n": {"b": 1.0}}'
+
+
+def test_K9_registry_restored_when_a_forced_flush_reports_a_conflict(tmp_path):
+    cls = MemoryBufferedJSONDict
+    fa, fb = str(tmp_path / "a.json"), str(tmp_path / "b.json")
+    a, b = cls(fa), cls(fb)
+    a["x"] = 0
+    b["y"] = 0
+    cap = cls.get_buffer_capacity()
+    try:
+        with cls.buffer_backend(1):
+            a["x"] = 1
+            with open(fa, "w") as f:
+                f.write('{"x": 12345}')  # outside change of a modified buffered file
+            with pytest.raises(BufferedError):
+                b["y"] = 1  # second modified file: capacity 1 exceeded -> forced flush -> conflict on a
+            b["y"] = 2
+        assert json.load(open(fb)) == {"y": 2}
+        assert list(cls._buffer) == []  # once the contexts have exited the buffer is empty
+        assert cls.get_current_buffer_size() == 0
+    finally:
+        cls.set_buffer_capacity(cap)
+        cls._buffer.clear()
+        cls._buffered_collections.clear()
+        cls._CURRENT_BUFFER_SIZE = 0
+
+
+def test_K11_shared_memory_flush_writes_the_buffered_contents(fn):
+    cls = MemoryBufferedJSONDict
+    a, b = cls(fn), cls(fn)
+    a["x"] = 0
+    with b.buffered:
+        with a.buffered:
+            a["x"]  # a only reads
+            b.reset({"y": 2})
+        # a's context exits first and flushes the file
+    assert json.load(open(fn)) == {"y": 2}
+    assert b() == {"y": 2}
